@@ -285,7 +285,7 @@ func genMultiTagType(t *rapid.T, mg *msgGen, maxDepth int) (*structGen, desc.T) 
 func genOverride(t *rapid.T, ty desc.T, mg *msgGen) map[string]string {
 	rm := map[string]string{}
 	for _, f := range ty.Fields {
-		if !(f.Name[0] >= 'A' && f.Name[0] <= 'Z') || f.T.Elem != nil || f.T.K == "struct" || f.T.K == "time" || f.T.K == "bool" {
+		if !desc.Exported(f.Name) || f.T.Elem != nil || f.T.K == "struct" || f.T.K == "time" || f.T.K == "bool" {
 			continue
 		}
 		if rapid.IntRange(0, 2).Draw(t, "ov-"+f.Name) == 0 {
